@@ -23,7 +23,7 @@ RULE = ('statements generated from a grammar (reads inside arithmetic, every com
         'at every bytecode boundary of miros/thread_safe_attributes.py and of the statements; whenever a thread has finished one of its '
         'statements it must not own the lock of either attribute, whatever the other threads did meanwhile. '
         'distinct_nontrivial = distinct AST shapes (ast.dump of the statement with constants abstracted), and distinct context-switch '
-        'sequences of the concurrent runs. ' + sysx.RULE_TEXT % (1, 2))
+        'sequences of the concurrent runs. ' + sysx.RULE_TEXT % (1, 1))
 CASES = {'quick': 400, 'thorough': 20000}
 BUDGET = {'quick': 150, 'thorough': 600}
 REQUIRE = {'statements': 4000, 'probes': 8000, 'plain_reads_ok': 100, 'self_augassign_ok': 100, 'concurrent_runs': 200,
@@ -207,7 +207,7 @@ def conc_worker(o, plan, out, held):
       held.append((k, op, name, getattr(lock, 'owner', None) is me, getattr(lock, 'count', 0)))
 
 
-SYS = {'quick': (8, 1, 3000, 60.0), 'thorough': (32, 2, 100000, 150.0)}
+SYS = {'quick': (8, 1, 3000, 60.0), 'thorough': (64, 1, 100000, 120.0)}     # systematic cases, deviation bound, schedule cap, seconds cap (per scenario)
 
 
 def concurrent_case(ctx, n):
